@@ -29,6 +29,15 @@ impl Solve<TU, TE> for Succ {
         }
     }
 }
+#[derive(Debug)]
+pub struct SameVar { u: T, v: T, out: T }
+impl Solve<TU, TE> for SameVar {
+    fn solve(&self, _solver: &Solver<TU, TE>, state: State<TU, TE>) -> Stream<TU, TE> {
+        let same = if self.u == self.v { 1 } else { 0 };
+        match state.unify(&LTerm::from(same), &self.out) { Ok(st) => Stream::unit(Box::new(st)), Err(_) => Stream::empty() }
+    }
+}
+pub fn samevar(u: T, v: T, out: T) -> Goal<TU, TE> { Goal::dynamic(Rc::new(SameVar { u, v, out })) }
 pub fn succ(u: T, v: T) -> Goal<TU, TE> { Goal::dynamic(Rc::new(Succ { u, v, mode: 0 })) }
 pub fn succ_head(u: T, v: T) -> Goal<TU, TE> { Goal::dynamic(Rc::new(Succ { u, v, mode: 1 })) }
 
@@ -51,6 +60,27 @@ pub fn nevero(x: T) -> Goal<TU, TE> {
 /// Silent diverger usable inside `dfs { }` as well: every recursion is wrapped in a closure, so every search step is finite.
 pub fn spin<G: AnyGoal<TU, TE>>() -> proto_vulcan::goal::InferredGoal<TU, TE, G> {
     proto_vulcan_closure!([true, spin()])
+}
+
+/// User-defined operators over the crate's binary disjunction nodes (`operator::disj`), which the built-in syntax never builds.
+pub fn dfsor(param: proto_vulcan::operator::OperatorParam<TU, TE, proto_vulcan::goal::DFSGoal<TU, TE>>) -> proto_vulcan::goal::DFSGoal<TU, TE> {
+    proto_vulcan::operator::disj::DFSDisj::from_conjunctions(param.body)
+}
+
+pub fn bfsor(param: proto_vulcan::operator::OperatorParam<TU, TE, Goal<TU, TE>>) -> Goal<TU, TE> {
+    proto_vulcan::operator::disj::Disj::from_conjunctions(param.body)
+}
+
+/// Rust-written goal using the mutable list API on its own clone of a bound term: out == walk(x) with `v` appended.
+pub fn pusho(x: T, v: T, out: T) -> Goal<TU, TE> {
+    proto_vulcan!(fngoal move |_solver, state| {
+        let mut l: T = state.smap_ref().walk(&x).clone();
+        l.extend(Some(v.clone()));
+        match state.unify(&out, &l) {
+            Ok(st) => Stream::unit(Box::new(st)),
+            Err(_) => Stream::empty(),
+        }
+    })
 }
 
 /// The same goal value solved twice in a row.
